@@ -86,8 +86,10 @@ Theorem C31_validate_partial : forall L b m, l_ref64 L = true -> decode L b = Ok
 Proof. exact validate_partial. Qed.
 Print Assumptions C31_validate_partial.
 
-(* partial, second list of mj_validateReferences (MJMODEL_REFERENCES_REQUIRED, regenerated into l_reqs; empty
-   when the source has no such list): an accepted model has no negative entry in the listed arrays *)
+(* partial, for the VARIANT of mj_validateReferences with a second list MJMODEL_REFERENCES_REQUIRED (regenerated
+   into l_reqs; the pinned tree has no such list, l_reqs real_layout = [], and there the statement is empty:
+   -1 is accepted for every reference array, recorded as known finding C31-F4): an accepted model has no
+   negative entry in the listed arrays.  Not an obligation on the regenerated layout. *)
 Theorem C31_validate_required_partial : forall L b m, decode L b = Ok m ->
   forall q, In q (l_reqs L) -> Forall (fun a => 0 <= a) (req_adrs m q).
 Proof. exact validate_required. Qed.
